@@ -9,7 +9,7 @@ CLAIMED=$(python3 -c "import json; print(' '.join(c['property_id'] for c in json
 for d in seeded/C*-m*; do
   sid=$(basename $d)
   [ -n "$1" ] && [[ "$sid" != $1* ]] && continue
-  git -C $WT checkout -q -- . ; git -C $WT apply $d/patch.diff || { echo "$sid patch does not apply" >> seeded/RESULTS.txt; continue; }
+  git -C $WT checkout -q -- . ; git -C $WT apply $PWD/$d/patch.diff || { echo "$sid patch does not apply" >> seeded/RESULTS.txt; continue; }
   for P in $(python3 -c "import json; print(' '.join(json.load(open('$d/meta.json'))['relevant_checks']))"); do
     case " $CLAIMED " in *" $P "*) ;; *) echo "$sid $P not-claimed" >> seeded/RESULTS.txt; continue;; esac
     out=$(PYVC_REPO=$WT PYVC_OUT=/tmp/pyvc_out_seed ./check $P 2>&1 | grep -v -e WARNING -e "(0,0)" -e KNOWN)
